@@ -309,3 +309,20 @@ Proof.
   unfold all_eq. apply forallb_forall. intros y Hy. apply repeat_spec in Hy. subst y.
   rewrite gslb_pick_spec. apply val_eqb_refl.
 Qed.
+
+(* ---------------------------------------------------------------- reload histories *)
+Lemma hrun_spec : forall ops c, hrun_by sticky c ops = hrun_by (spec_pick 100 true) c ops.
+Proof.
+  induction ops as [|o r IH]; intros c; [reflexivity|]. destruct o; simpl; rewrite ?IH, ?sticky_spec; reflexivity.
+Qed.
+Theorem prop_of_model_hist : forall c ops conf os,
+  dec_hist c ops = Some (conf, os) ->
+  prop_C02 (VL [VZ 3; c; ops]) (run_C02 (VL [VZ 3; c; ops])) = true.
+Proof.
+  intros c ops conf os H. unfold prop_C02, run_C02. rewrite H, hrun_spec. apply val_eqb_refl.
+Qed.
+(* the pick after any history depends only on the current configuration as a set: any two balancers whose
+   current lists are permutations of each other (distinct AddrInfo) answer every later pick identically *)
+Theorem hist_pick_order_independent : forall c c' h,
+  Permutation c c' -> NoDup (map t_key c) -> sticky c h = sticky c' h.
+Proof. exact sticky_order_independent. Qed.
